@@ -71,15 +71,18 @@ theorem find_surface_on_line (T : TGrid) (g : Geo) (mp : BlockMap) (maxVol : Rat
 
 /-! ### spacings -/
 
-/-- For a direction with a single block, the spacing recovered as volume divided by the doubled
-    distances of the two present directions is the original one: if the origin block has volume
-    `a * b * c` and own distances `a/2`, `b/2` in the present directions, the result is `c`. -/
-theorem missing_direction_spacing (T : TGrid) (ob : GBlock) (p1 p2 : Nat) (c1 c2 : GConn) (a b c : Rat)
-    (h1 : firstConnIn T ob.name p1 = .ok c1) (h2 : firstConnIn T ob.name p2 = .ok c2)
-    (hd1 : conDist c1 ob.name = .ok (a / 2)) (hd2 : conDist c2 ob.name = .ok (b / 2))
-    (ha : a ≠ 0) (hb : b ≠ 0) (hv : ob.volume = a * b * c) :
-    missingSpacing T ob [p1, p2] ob.volume = .ok c :=
-  missing_spacing T ob p1 p2 c1 c2 a b c h1 h2 hd1 hd2 ha hb hv
+/-- For a direction with a single block, the spacing recovered as the origin block's volume
+    divided by its own sizes in the two present directions (the first spacing found along
+    directions 1 and 2, the last — bottom layer — along direction 3) is the original one: with
+    volume `a * b * c` and own sizes `a`, `b` the result is `c`. -/
+theorem missing_direction_spacing (s1 s2 s3 : List Rat) (p1 p2 : Nat) (a b c vol : Rat)
+    (h1 : ownSpacing s1 s2 s3 p1 = .ok a) (h2 : ownSpacing s1 s2 s3 p2 = .ok b)
+    (ha : a ≠ 0) (hb : b ≠ 0) (hv : vol = a * b * c) :
+    missingSpacing s1 s2 s3 [p1, p2] vol = .ok c :=
+  missing_spacing s1 s2 s3 p1 p2 a b c vol h1 h2 ha hb hv
+
+-- a 1 x 3 x 2 grid: direction 1 is missing; the origin block is 4 wide in direction 2 and 2 thick
+example : missingSpacing [] [4, 5, 6] [1, 2] [2, 3] (3 * 4 * 2) = .ok 3 := by decide +kernel
 
 /-- The candidate next block is unique: standing on a block of a line (`isLine`: its only
     direction-`k` connections are the one it was reached through, the one to the next block, and
